@@ -101,8 +101,18 @@ def m_mul(m1, m2):
     return tuple(sorted(d.items()))
 
 
+MAX_PRODUCT_TERMS = 40_000_000
+
+
+class Budget(Exception):
+    pass
+
+
 def p_mul_raw(a, b):
     r = {}
+    if len(a) * len(b) > MAX_PRODUCT_TERMS:
+        from .facts import AnalysisIncomplete
+        raise AnalysisIncomplete('normal-form budget exceeded: product of polynomials with %d and %d terms' % (len(a), len(b)))
     if len(a) > len(b):
         a, b = b, a
     for m1, c1 in a.items():
